@@ -1,4 +1,6 @@
 from __future__ import annotations
+import copy
+import dataclasses
 import time
 import threading
 import logging
@@ -218,7 +220,13 @@ class DENMTransmissionManagement:
     def request_denm_sending(self, denm_request: DENRequest) -> None:
         """
         Request to send a DENM and starts a thread.
+
+        The event position is copied when the request is accepted: the repetitions of the event are
+        sent to the position the event was requested with, whatever the caller does with its
+        (mutable) position dictionary afterwards.
         """
+        denm_request = dataclasses.replace(
+            denm_request, event_position=copy.deepcopy(denm_request.event_position))
         t = threading.Thread(
             target=self.trigger_denm_messages, args=[denm_request])
         t.start()
